@@ -43,6 +43,10 @@ T.update({
  "C07-c": ("compio-driver/tests/buffer_pool_late_multishot.rs", "cargo test -p compio-driver --offline --test buffer_pool_late_multishot", [("ws-net", "c07", [])]),
  "C12-c": ("compio-io/tests/compat_waker_migration.rs", "cargo test -p compio-io --features compat --offline --test compat_waker_migration", [("ws-io", "c12", [])]),
  "C18-c": ("compio-dispatcher/tests/join_worker_panic.rs", "cargo test --workspace --offline --test join_worker_panic -- --test-threads=1", [("ws-pool", "c18", [])]),
+ "C03-d": ("compio-executor/tests/remote_wake_reservation.rs", "cargo test -p compio-executor --offline --test remote_wake_reservation", [("ws-sched", "c03a", [])]),
+ "C08-d": ("compio-fs/tests/seed_c08_d.rs", NX + " -E 'package(compio-fs) & binary(seed_c08_d)'", [("ws-fs", "c08", [])]),
+ "C14-d": ("compio-net/tests/c14_poll_duplex.rs", "cargo test --offline -p compio-net -p compio-driver --features compio-driver/polling --test c14_poll_duplex", [("ws-net", "c14", ["--part", "duplex"])]),
+ "C19-d": ("compio-actor/tests/seed_c19_failed_start_name.rs", NX + " -E 'package(compio-actor) & binary(seed_c19_failed_start_name)'", [("ws-pool", "c19", [])]),
  "C16-c": ("compio-quic/tests/open_wait_wakeups.rs", NX + " --test open_wait_wakeups -E 'package(compio-quic)'", [("ws-proto", "c16", [])]),
 })
 EXTRA = "/tmp/seed/confirm_table.json"   # further entries added later: {"C17-a": [demo_path, cmd, [[ws,bin,[args]]]]}
